@@ -525,7 +525,9 @@ func runFtpPart(o hx.Opts, r *hx.Rand, w window, out, header string, all []strin
 		cases = append(cases, c)
 	}
 
-	// does a directory change survive?  (child process: Fs.ChangeDir recurses without bound)
+	// does a directory change survive?  Probed in a child process: before /repo commit 6736570
+	// Fs.ChangeDir called itself and the process died of stack exhaustion; should that come
+	// back, the probe is reported as a crash case and CWD/CDUP are left out of the sequences.
 	cwdOps := []Op{{V: "CWD", P: hx.B("a")}, {V: "PWD"}, {V: "CDUP"}, {V: "PWD"}}
 	if replay != nil && replay.Part == "ftp-cwd" {
 		cwdOps = replay.Ops
@@ -555,8 +557,20 @@ func runFtpPart(o hx.Opts, r *hx.Rand, w window, out, header string, all []strin
 		seqs = [][]Op{replay.Ops}
 	} else {
 		if cwdOK {
+			C := func(p string) Op { return Op{V: "CWD", P: hx.B(p)} }
+			up, pwd := Op{V: "CDUP"}, Op{V: "PWD"}
+			N := func(v, p string) Op { return Op{V: v, P: hx.B(p)} }
 			seqs = append(seqs, cwdOps,
-				[]Op{{V: "CWD", P: hx.B("a/a")}, {V: "CDUP"}, {V: "CDUP"}, {V: "CDUP"}, {V: "PWD"}, {V: "RETR", P: hx.B("../b")}, {V: "CWD", P: hx.B("../..")}, {V: "NLST", P: hx.B("..")}})
+				// escape attempts through the working directory
+				[]Op{up, pwd, up, up, pwd, N("NLST", ""), N("RETR", "b"), N("RETR", "../b")},
+				[]Op{C("../.."), pwd, C("/../.."), pwd, C("../../a"), pwd, N("NLST", ".."), N("RETR", "../b"), N("RETR", "../../b")},
+				[]Op{C("a/a"), up, up, up, pwd, N("RETR", "../b"), C("../.."), N("NLST", ".."), N("MKD", "../../escaped-dir"), pwd},
+				[]Op{C("a/a/b"), pwd, C("../../../../../a/b"), pwd, C("../../../.."), pwd, {V: "STOR", P: hx.B("../../b"), Data: hx.B("overwrite")}, N("DELE", "../../../b")},
+				[]Op{C("a"), N("RNFR", "b"), N("RNTO", "../../../stolen"), pwd, up, N("NLST", ""), C("../ftp"), C("../SENTINEL-d"), C("/../a/a"), pwd},
+				[]Op{C("b"), pwd, C("a/b"), pwd, C("nope"), pwd, C(""), C("a/./../a//a/"), pwd, C("."), pwd},
+				// the working directory is removed or replaced under the session
+				[]Op{C("a/a/b"), N("RMD", "/a/a/b"), pwd, N("NLST", ""), N("MKD", "x"), up, pwd, N("RMD", "../a"), up, up, pwd},
+				[]Op{C("a/a"), N("RNFR", "/a"), N("RNTO", "/c"), pwd, N("NLST", ""), up, pwd, C("/c/a"), pwd, N("RNTO", "x")})
 		}
 		seqs = append(seqs, ftpCorpus()...)
 		n, maxLen := 260, 5
